@@ -32,6 +32,16 @@ PAIRS = {
     'decay0_beta_1fu__1': ('beta_1fu', 'bj69sl2', True),
     'decay0_funbeta_1fu': ('funbeta_1fu', 'bj69sl2', False),
 }
+def _fe_pairs():
+    import glob
+    out = {}
+    for f_ in ('fe1_mods.cc', 'fe2_mods.cc', 'fe12_mods.cc'):
+        txt = open(os.path.join(bx2c.REPO, 'bxdecay0', f_)).read()
+        for m in re.finditer(r'double\s+decay0_(fe\d+_mod\d+)\s*\(', txt):
+            out['decay0_' + m.group(1)] = (m.group(1), 'bbpars', False)
+    return out
+
+
 FUN_ID = {'decay0_funbeta': 1, 'decay0_funbeta1': 2, 'decay0_funbeta2': 3, 'decay0_funbeta_1fu': 4}
 
 
@@ -156,6 +166,9 @@ def tgold_stub_r(prog, pairing, struct, funit):
 
 
 def build(db, prog, cname, propid='C01'):
+    if cname not in PAIRS and re.match(r'^decay0_fe\d+_mod\d+$', cname):
+        PAIRS.update(_fe_pairs())
+        FIELDS['bbpars'] = [f_ for f_ in BB_FIELDS if f_[1]]
     rname, struct, has_dummies = PAIRS[cname]
     pairing = rel.Pairing(db, prog)
     fx = db['funcs'][cname]
